@@ -267,6 +267,7 @@ def run(ctx):
     ctx.ob('C09.R3', 'sum:over-titratable-groups', ok,
            'the protein charge sums over get_titratable_groups() (ions and demoted groups carry '
            'a formal charge too and must not be counted)', cc, loops[0] if loops else ccf)
+    common.check_charge_sum_unconditional(ctx, 'C09.R3', prog)
     ctx.ob('C09.R3', 'sum:starts-at-zero', set(acc_tags) <= init_names,
            'both accumulators start at 0', cc, ccf)
     gt = cc.func('ConformationContainer.get_titratable_groups')
